@@ -13,4 +13,5 @@ git -C /repo checkout -- .
 mkdir -p /verif/evidence/last-seeded-replays && cp -a /verif/evidence/replays/. /verif/evidence/last-seeded-replays/ 2>/dev/null
 for f in "$keep"/C*.json; do cp -a "$f" /verif/evidence/; done
 rm -rf "$keep"
+git -C /verif checkout -- lean/Preflate/Gen   # regenerated under the seeded change
 git -C /repo status --short | head -3
